@@ -489,7 +489,7 @@ impl Reduce {
     ) -> Self {
         // assert!(Split::from_iter(named_exprs.clone()).len()==1);
         let (schema, aggregate) = Reduce::schema_aggregate(named_aggregate, &input);
-        let size = Reduce::size(&input);
+        let size = Reduce::size(&input, &aggregate, &group_by);
         Reduce {
             name,
             aggregate,
@@ -545,7 +545,16 @@ impl Reduce {
     }
     /// Compute the size of the reduce
     /// The size of the reduce can be the same as its input and will be at least 0
-    fn size(input: &Relation) -> Integer {
+    /// Without grouping columns an aggregation returns exactly one row, even on an empty input
+    /// (`First` alone is not an aggregation in the SQL we generate: it is rendered as the column itself)
+    fn size(input: &Relation, aggregate: &[AggregateColumn], group_by: &[Column]) -> Integer {
+        if group_by.is_empty()
+            && aggregate
+                .iter()
+                .any(|agg| agg.aggregate() != &Aggregate::First)
+        {
+            return Integer::from_value(1);
+        }
         input.size().max().map_or_else(
             || Integer::from_min(0),
             |&max| Integer::from_interval(0, max),
